@@ -96,6 +96,10 @@ def gen_string(rnd):
         parts = [bytes(rnd.randrange(256) for _ in range(rnd.randrange(1, 12)))]
         label = "random"
     out = b"".join(parts)
+    if rnd.random() < 0.1:
+        # characters that tolerant decoders drop or rewrite: a leading U+FEFF (also twice, also alone), NUL, U+2028, U+FFFE; they are
+        # part of the text and are delivered like any other character
+        out = rnd.choice([b"\xef\xbb\xbf", b"\xef\xbb\xbf\xef\xbb\xbf", b"\x00", b"\xe2\x80\xa8", b"\xef\xbf\xbe", b"\r\n"]) + out
     if rnd.random() < 0.12:
         # JSON-like text: braces and percent signs in front of whatever follows (they mean something to str.format and %)
         out = rnd.choice([b'{"k": {"n": 1}, "s": "', b"{0} {} %s }{ "]) + out
